@@ -144,6 +144,40 @@ def run(ctx):
                     return True
             return False
         ok, wit, _ = guarded_by(b, bi, good, conds)
+        if not ok:
+            # the update sits in a private helper that receives the new term as a parameter (`step_down_for_higher_term(term)`):
+            # the guard is then looked for at every production call site of the helper, on the caller's operand
+            outer = F.bodies[root]
+            pidx = [x[1] for x in arg.sources if x[0] == "param"]
+            if not pidx:
+                for x in arg.sources:
+                    if x[0] == "upvar":
+                        for l in range(1, outer.argc + 1):
+                            if outer.local_name(l) == str(x[1]).lstrip("*&"):
+                                pidx.append(l)
+            csites = [c for c in F.callers_of(lambda k, r=root: k == r) if c[0] != root and not re.search(r"(_test|/tests?/|test_utils|mock)", F.bodies[c[1]].file or "")]
+            if pidx and csites and not outer.impl_of:
+                lifted = True
+                for (croot, cbid, cbi, ct) in csites:
+                    cb = F.bodies[cbid]
+                    if pidx[0] - 1 >= len(ct["args"]):
+                        lifted = False
+                        break
+                    arg2 = Slice(F, cb).operand(ct["args"][pidx[0] - 1])
+
+                    def good2(c, cb=cb, arg2=arg2):
+                        if c.kind == "cmp":
+                            return relation_arg_vs_cur(F, cb, c, arg2) in (">", ">=")
+                        if c.kind in ("call", "bool"):
+                            return c.truth is True and bool(cond_calls(F, c, r"(if_higher_term_found|ElectionCore::check_vote_request_is_legal)$"))
+                        if c.kind == "discr":
+                            return c.variants == {"HigherTerm"} or (c.variants == {"Some"} and cond_slice(F, c).has_field("StateUpdate", "term_update"))
+                        return False
+                    g2, w2, _ = guarded_by(cb, cbi, good2, edge_conditions(cb))
+                    if not g2:
+                        lifted, wit = False, w2
+                        break
+                ok = lifted
         n = per_fn.get(fkey(root), 0)
         per_fn[fkey(root)] = n + 1
         ctx.check("C02-c", "%s#update_current_term[%d]" % (fkey(root), n), ok,
